@@ -1152,11 +1152,23 @@ def round_plan(ctx):
     scenarios is a pure function of the seed; only *how many* rounds are run adapts to the machine (the sandbox is shared and its
     load varies by a factor of three), between a fixed minimum and maximum, so that the tier keeps its wall-clock budget
     (quick 60-150 s, thorough 10-25 min).  The clock never enters a verdict."""
+    flag = os.path.join(vlib.scratch_root(), "violation-found")     # lets the other workers stop once one of them has a violation
     if getattr(ctx, "only", None) and "fixedrounds" in ctx.only:
-        return {"size": 500, "min": 4, "max": 4, "deadline": None}
+        return {"size": 500, "min": 4, "max": 4, "deadline": None, "flag": flag}
     if ctx.quick:
-        return {"size": 400, "min": 3, "max": 60, "deadline": ctx.t0 + 68}
-    return {"size": 2000, "min": 4, "max": 400, "deadline": ctx.t0 + 15 * 60}
+        return {"size": 400, "min": 3, "max": 60, "deadline": ctx.t0 + 68, "flag": flag}
+    return {"size": 2000, "min": 4, "max": 400, "deadline": ctx.t0 + 15 * 60, "flag": flag}
+
+
+def raise_flag(plan):
+    try:
+        open(plan["flag"], "w").close()
+    except OSError:
+        pass
+
+
+def flag_up(plan):
+    return os.path.exists(plan["flag"])
 
 
 def search_rounds(strategy, runfn, seed, stats, plan):
@@ -1164,9 +1176,12 @@ def search_rounds(strategy, runfn, seed, stats, plan):
     for rnd in range(plan["max"]):
         if rnd >= plan["min"] and (plan["deadline"] is None or time.time() >= plan["deadline"]):
             break
+        if flag_up(plan):
+            break
         vlib.hyp_search(strategy, runfn, plan["size"], vlib.subseed(seed, "round", rnd), stats)
         rounds += 1
         if stats.violations:
+            raise_flag(plan)
             break
     stats.cls("hypothesis_rounds", rounds)
     stats.cls("hypothesis_examples_planned", rounds * plan["size"])
